@@ -342,7 +342,7 @@ def check_main(
     # 3/4. correspondence + oracle on the real code
     if args.replay:
         payload = json.loads(Path(args.replay).read_text())
-        res = (replay or (lambda c, case: Result()))(ctx, payload.get("case", payload))
+        res = (replay or (lambda c, case: Result()))(ctx, payload.get("case") or payload.get("minimal_diverging_case") or payload)
     else:
         res = run(ctx)
 
